@@ -422,6 +422,35 @@ void harness (void)
           }
       }
   }
+#elif OP == 10
+#ifndef D0
+#define D0 0
+#define D1 0
+#define D2 0
+#endif
+  {
+    /* C05.c: messages staged in one transaction reach each connection in the order they were staged (per-recipient FIFO), exactly once, and only on execute;
+     * a cancelled transaction delivers nothing.  Three messages with symbolic recipients through the real bus_transaction_send / execute / cancel. */
+    static struct DBusMessage m1, m2, m3; struct DBusMessage *mm[3] = { &m1, &m2, &m3 }; int dst[3], k, seen, last, do_exec = vf_bool (); dbus_bool_t ok;
+    for (k = 0; k < 3; k++) { mm[k]->refcount = 1; mm[k]->type = DBUS_MESSAGE_TYPE_SIGNAL; mm[k]->serial = 0; mm[k]->sender = cname[0]; }
+    dst[0] = D0; dst[1] = D1; dst[2] = D2;          /* recipients are job shape (symbolic recipients make every per-connection list symbolic: no verdict) */
+    tr = bus_transaction_new ((BusContext *) &conns); VF_ASSUME (tr != 0);
+    for (k = 0; k < 3; k++) { ok = bus_transaction_send (tr, NULL, cnp[dst[k]], mm[k]); VF_ASSERT (ok, "staging succeeds when memory is available"); }
+    VF_ASSERT (n_sent == 0, "nothing is sent before the transaction is executed");
+    if (do_exec) bus_transaction_execute_and_free (tr); else bus_transaction_cancel_and_free (tr);
+    if (!do_exec) { VF_ASSERT (n_sent == 0, "a cancelled transaction delivers nothing"); VF_WITNESS_OPT ("transaction cancelled"); }
+    else
+      {
+        VF_ASSERT (n_sent == 3, "every staged message is sent exactly once");
+        for (i = 0; i < NC; i++)
+          { last = -1;
+            for (j = 0; j < 3; j++) if (sent[j].conn == i)
+              { seen = -1; for (k = 0; k < 3; k++) if (sent[j].m == mm[k]) seen = k;
+                VF_ASSERT (seen >= 0 && dst[seen] == i, "a message goes to the connection it was staged for");
+                VF_ASSERT (seen > last, "messages for one connection are sent in the order they were staged"); last = seen; } }
+        if (dst[0] == dst[1] && dst[1] == dst[2]) VF_WITNESS_OPT ("three messages to one connection");
+      }
+  }
 #elif OP == 4
   {
     /* C05 (error replies) / C03.d: bus_transaction_send_error_reply through the real send path */
